@@ -61,6 +61,11 @@ CHECKS = {
         technique="translation validation, TEAL vs TEAL: SymAVM on the pseudo-op program and the assembled-constants program over one symbolic context (template constants symbolic); SMT obligation per path pair incl. the value pushed at every constant-load site in execution order; models replayed concretely",
         text="Each recipe is compiled with assembleConstants off and on (versions 3..10). z3 shows for ALL inputs and template values that, on every path, the k-th constant-load instruction pushes the same value in both programs (int/byte/addr/method pseudo-ops decoded by the independent front-end vs pushint/pushbytes/intc*/bytec* resolved through the emitted intcblock/bytecblock) and that verdict, return value and effects agree. Constant-block indices that do not fit the one-byte immediate are reported. Programs: constant multisets by frequency pattern x magnitude class x byte-literal spelling (utf-8 with escapes, hex, base32 with/without padding, base64, Addr, MethodSignature, enums, Tmpl.Int/Bytes/Addr), equal values under different spellings, the pushint-vs-block boundary, 255/256/257 distinct repeated constants, control skeletons.",
         note="Trusted: my literal decoders in verif/teal/parse.py (the pseudo-op side), TEAL op semantics, z3. Bounds: the enumerated multisets; loops K."),
+    "C14": dict(
+        category="model_checking", design_ref="DESIGN.md 3/C14",
+        technique="bounded symbolic execution (SymAVM/z3) of programs that execute InnerTxnBuilder.ExecuteMethodCall with arguments derived from symbolic outer arguments; the recorded inner group is compared by z3 with the group prescribed by an ARC-4 client model; models replayed concretely with algosdk.abi",
+        text="For every enumerated inner call - 0..17 arguments around the 15-argument cut-off; plain arguments as ABI values of several types built with set(...) or as already-encoded byte expressions; reference arguments (one, several of one kind, all kinds mixed with plain ones); transaction arguments of every kind and position; with and without extra fields; versions 6..10 - z3 shows for ALL argument values that the submitted inner group is the one an ARC-4 client builds: transaction arguments as the preceding members in order, ApplicationArgs[0] the SHA-512/256 selector of the stated signature, plain arguments encoded in order, reference arguments appended to Accounts/Applications/Assets in order and passed as the prescribed one-byte index. Ill-typed arguments (wrong width, longer/shorter tuples, static vs dynamic arrays, wrong transaction type) must be rejected when the expression is built.",
+        note="Trusted: the ARC-4 client model (verif/innercall.py), TEAL op semantics, z3. Bounds: enumerated calls; dynamic lengths 2. Known finding: no tuple packing beyond 15 arguments."),
     "C16": dict(
         category="other", design_ref="DESIGN.md 3/C16",
         technique="SMT (z3 nonlinear integer arithmetic) Hoare contracts over segments of the emitted WideRatio TEAL at full 64-bit width + whole-program bit-vector equivalence at narrow word widths; models replayed on the emitted code",
